@@ -284,6 +284,11 @@ func ruleRecCensus(c *Ctx) {
 						if e.Callee.Func.Parent() != f && f.Parent() != e.Callee.Func.Parent() {
 							continue
 						}
+						// a function value received as a parameter (directly or captured from an enclosing function's
+						// parameter, e.g. the yield of an iterator) is the caller's, not f or one of its siblings
+						if calledIsParameter(e.Site.Common().Value) {
+							continue
+						}
 					}
 					if e.Site != nil && e.Site.Common().IsInvoke() {
 						continue // interface dispatch into the module: resolved imprecisely; handlers are not recursive by construction
@@ -356,7 +361,6 @@ func ruleRecCensus(c *Ctx) {
 		sort.Strings(names)
 		n++
 		desc := "recursive cycle {" + strings.Join(names, ", ") + "}"
-		all := strings.Join(names, " ")
 		inInclude := true
 		for _, i := range comp {
 			top := funcs[i]
@@ -376,8 +380,8 @@ func ruleRecCensus(c *Ctx) {
 					ruleLoaderGuard(c, ls)
 				}
 			}
-		case len(comp) == 1 && strings.Contains(all, "Settings"):
-			c.ok("REC-CENSUS", names[0], desc, funcs[comp[0]].Pos(), "settings recursion on a member of the argument (C19-TOTAL)")
+		case len(comp) == 1 && structuralRecursion(funcs[comp[0]]):
+			c.ok("REC-CENSUS", names[0], desc, funcs[comp[0]].Pos(), "structural recursion: every recursive call passes an element of a container argument it received (a decoded value is a finite tree)")
 		default:
 			c.undecided("REC-CENSUS", names[0], desc, funcs[comp[0]].Pos(), "recursion whose termination is not established by any rule")
 		}
@@ -1076,4 +1080,91 @@ func ssaLoopProgress(f *ssa.Function, s *ast.ForStmt) (bool, string) {
 		}
 	}
 	return false, ""
+}
+
+// calledIsParameter: the called function value is a parameter of the function or a captured parameter of an
+// enclosing function.
+func calledIsParameter(v ssa.Value) bool {
+	for range 6 {
+		switch x := v.(type) {
+		case *ssa.Parameter:
+			return true
+		case *ssa.FreeVar:
+			b := freeVarBinding(x)
+			if b == nil {
+				return false
+			}
+			v = b
+		case *ssa.ChangeType:
+			v = x.X
+		case *ssa.UnOp:
+			if x.Op != token.MUL {
+				return false
+			}
+			// load of a cell: the cell of a captured parameter is an Alloc with a single store of the parameter
+			cell := x.X
+			for range 6 {
+				fv, ok := cell.(*ssa.FreeVar)
+				if !ok {
+					break
+				}
+				cell = freeVarBinding(fv)
+			}
+			al, ok := cell.(*ssa.Alloc)
+			if !ok {
+				return false
+			}
+			var val ssa.Value
+			n := 0
+			for _, r := range *al.Referrers() {
+				if st, ok := r.(*ssa.Store); ok && st.Addr == al {
+					n++
+					val = st.Val
+				}
+			}
+			if n != 1 {
+				return false
+			}
+			v = val
+		default:
+			return false
+		}
+	}
+	return false
+}
+
+// structuralRecursion: every self call of f passes, in some argument position, a value obtained from the
+// parameter in that same position by at least one element access (map lookup, index): recursion on a
+// strictly smaller part of a finite tree.
+func structuralRecursion(f *ssa.Function) bool {
+	n := 0
+	for _, b := range f.Blocks {
+		for _, ins := range b.Instrs {
+			call, ok := ins.(ssa.CallInstruction)
+			if !ok || call.Common().StaticCallee() != f {
+				continue
+			}
+			n++
+			descends := false
+			for i, a := range call.Common().Args {
+				if i >= len(f.Params) {
+					break
+				}
+				sl := backSlice(a)
+				if !sl[f.Params[i]] {
+					continue
+				}
+				for v := range sl {
+					switch v.(type) {
+					case *ssa.Lookup, *ssa.Index, *ssa.IndexAddr:
+						descends = true
+					}
+				}
+			}
+			if !descends {
+				return false
+			}
+		}
+	}
+	return n > 0
 }
